@@ -786,11 +786,14 @@ func (gen *Generator) GenerateCallBySymbol(sym *SexpSymbol, args []Sexp, orig Se
 		// an ordinary call would. (Rebinding the parameters in the
 		// old scope would be visible to closures and lazy arguments
 		// created by earlier iterations.)
-		gen.AddInstruction(PrepareCallInstr{sym, len(args)})
+		gen.AddInstruction(PrepareCallInstr{sym, len(args), gen.scopes + 3})
 		for i := 0; i < gen.scopes+1; i++ {
 			gen.AddInstruction(RemoveScopeInstr{})
 		}
 		gen.AddInstruction(GotoInstr{0})
+		// reached only from the pre-call instruction, when the name no
+		// longer denotes the running function: an ordinary call.
+		gen.AddInstruction(CallInstr{sym, len(args)})
 	} else {
 		gen.AddInstruction(CallExprInstr{callee: sym, args: append([]Sexp(nil), args...)})
 	}
